@@ -7,8 +7,8 @@ from .lib import cz, cbool, coq_mismatches
 LEVEL = "proof"
 META = {
     "category": "proof",
-    "text": "Coq theorems over an executable model of starlark/int.go written once over the accessor interface of the Int union and instantiated with both representations (int32-in-address-space / struct union, and the all-big.Int fallback): every operator (+ - * // % & | ^ ~ << >> comparisons, Int64/AsInt32/Sign) equals the Z operation for all operands of any magnitude and returns a canonical value, the floored division law is derived from the code's truncated quotient/remainder plus correction, range()/len/index/membership/equality/iteration/enumerate as computed in Go int64/uint64 with explicit wrap equal the mathematical sequence or fail, float->int truncation and int/float comparison are exact on Flocq binary64 values, int(string, base) and printing round-trip over Z. The hand-written model is tied to /repo on every run: the Go harness runs the real operators and built-ins in both representations on the ordered product of the boundary pool of the property's quantifier plus random magnitudes to 2^200 and the float pool, checks every observation against an independent math/big oracle, and a Coq-sized sample is evaluated inside Coq against the model (correspondence) and the specification (oracle).",
-    "note": "Trusted: Coq kernel + vm_compute; the Go harness and its math/big oracle; math/big, strconv and hardware float conversion/arithmetic are oracles (modelled by Z / exact dyadic rationals / Flocq operations). Slicing a range whose arithmetic exceeds int64 and math.round(int) are recorded known findings.",
+    "text": "Coq theorems over an executable model of starlark/int.go written once over the accessor interface of the Int union and instantiated with both representations (int32-in-address-space / struct union, and the all-big.Int fallback): every operator (+ - * // % & | ^ ~ << >> comparisons, Int64/AsInt32/Sign) equals the Z operation for all operands of any magnitude and returns a canonical value, the floored division law is derived from the code's truncated quotient/remainder plus correction, range()/len/index/membership/equality/iteration/enumerate as computed in Go int64/uint64 with explicit wrap equal the mathematical sequence or fail, float->int truncation, math.floor/ceil and int/float comparison are exact on every binary64 value (Coq SpecFloat datatype, the one underlying Flocq's binary_float), int(string, base) and printing round-trip over Z. The hand-written model is tied to /repo on every run: the Go harness runs the real operators and built-ins in both representations on the ordered product of the boundary pool of the property's quantifier plus random magnitudes to 2^200 and the float pool, checks every observation against an independent math/big oracle, and a Coq-sized sample is evaluated inside Coq against the model (correspondence) and the specification (oracle).",
+    "note": "Trusted: Coq kernel + vm_compute; the Go harness and its math/big oracle; math/big, strconv and hardware float conversion/arithmetic are oracles (modelled by Z / exact dyadic rationals / SpecFloat operations). Slicing a range whose arithmetic exceeds int64 and math.round(int) are recorded known findings.",
     "technique": "Coq proof over executable model + differential correspondence (vm_compute) + independent math/big and Spec.v oracles, both Int representations",
 }
 
@@ -128,6 +128,25 @@ def classify(c):
     return "%s:%s" % (k, op)
 
 
+FLOPS = {"+": "FADD", "-": "FSUB", "*": "FMUL", "/": "FDIV"}
+ENUM_N = {"[]": 0, "['a']": 1, "['a', 'b']": 2, "('a', 'b', 'c')": 3, "{'a': 1, 'b': 2, 'c': 3, 'd': 4}": 4}
+PRINT_BASE = {"str(a0)": 10, "'%d' % a0": 10, "'%x' % a0": 16, "'%o' % a0": 8}
+
+
+def cfloat(s):
+    return "(float_of_bits %s)" % cz(fbits(s))
+
+
+def cnumf(s):
+    if is_float(s):
+        return "(NFloat %s)" % cfloat(s)
+    return "(NInt %s)" % cz(int(s))
+
+
+def cbytes_z(text):
+    return "[" + "; ".join("%d" % b for b in text.encode("utf8")) + "]"
+
+
 def term(c, rep):
     """Coq `case` term for an observation, or None if this kind is not evaluated in Coq."""
     k, op, a, r = c["k"], c["op"], c["a"], c["r"]
@@ -135,13 +154,79 @@ def term(c, rep):
     arm = c.get("arm", 0)
     if r.startswith("panic"):
         return None
+    o = cobs(r)
     if k == "bin":
         return "(CBin %s %s %s %s %s %d)" % (fb, BINOPS[op_of(op)], cz(int(a[0])), cz(int(a[1])), copt_z(r), arm)
     if k == "cmp":
         return "(CCmp %s %s %s %s %s)" % (fb, CMPS[op_of(op)], cz(int(a[0])), cz(int(a[1])), cbool(r == "T"))
     if k == "un":
         return "(CUn %s %s %s %s %d)" % (fb, UNOPS[op], cz(int(a[0])), cz(int(r)), arm)
+    if k == "cmpif" and r in ("T", "F"):
+        return "(CCmpIF %s %s %s %s %s)" % (fb, CMPS[op_of(op)], cz(int(a[0])), cz(fbits(a[1])), cbool(r == "T"))
+    if k == "cmpfi" and r in ("T", "F"):
+        return "(CCmpFI %s %s %s %s %s)" % (fb, CMPS[op_of(op)], cz(fbits(a[0])), cz(int(a[1])), cbool(r == "T"))
+    if o is None:
+        return None
+    if k == "mixif" and op_of(op) in FLOPS:
+        return "(CMixIF %s %s %s %s %s)" % (fb, FLOPS[op_of(op)], cz(int(a[0])), cz(fbits(a[1])), o)
+    if k == "mixfi" and op_of(op) in FLOPS:
+        return "(CMixFI %s %s %s %s %s)" % (fb, FLOPS[op_of(op)], cz(fbits(a[0])), cz(int(a[1])), o)
+    if k == "truediv":
+        return "(CTrueDiv %s %s %s %s)" % (fb, cz(int(a[0])), cz(int(a[1])), o)
+    if k == "float_of_int":
+        return "(CFloatOfInt %s %s %s)" % (fb, cz(int(a[0])), o)
+    if k in ("int_of_int", "int_of_float"):
+        return "(CIntOf %s 0 %s %s %d)" % (fb, cnumf(a[0]), o, arm)
+    if k in ("floor_int", "floor_float"):
+        return "(CIntOf %s 1 %s %s %d)" % (fb, cnumf(a[0]), o, arm)
+    if k in ("ceil_int", "ceil_float"):
+        return "(CIntOf %s 2 %s %s %d)" % (fb, cnumf(a[0]), o, arm)
+    if k in ("str", "fmt") and op in PRINT_BASE and r.startswith("s:"):
+        return "(CPrint %d %s %s)" % (PRINT_BASE[op], cz(int(a[0])), cbytes_z(r[2:]))
+    if k == "parse":
+        base = "None" if len(a) == 1 else "(Some %s)" % cz(int(a[1]))
+        return "(CParse %s %s %s)" % (cbytes_z(a[0][2:]), base, o)
+    if k == "rng_len":
+        return "(CRngLen %s %s %s %s)" % (cz(int(a[0])), cz(int(a[1])), cz(int(a[2])), o)
+    if k == "rng_idx":
+        return "(CRngIdx %s %s %s %s %s)" % (cz(int(a[0])), cz(int(a[1])), cz(int(a[2])), cz(int(a[3])), o)
+    if k in ("rng_in", "rng_inf"):
+        return "(CRngIn %s %s %s %s %s %s)" % (fb, cz(int(a[0])), cz(int(a[1])), cz(int(a[2])), cnumf(a[3]), o)
+    if k in ("rng_list", "rng_iter"):
+        return "(CRngList %s %s %s %s)" % (cz(int(a[0])), cz(int(a[1])), cz(int(a[2])), o)
+    if k == "rng_eq":
+        return "(CRngEq %s %s %s)" % (" ".join(cz(int(x)) for x in a), cbool("!=" in op), o)
+    if k in ("rng_slice", "rng_slice_len"):
+        return "(CRngSlice %s %s %s %s)" % (" ".join(cz(int(x)) for x in a[:3]), " ".join(copt_arg(x) for x in a[3:6]),
+                                         cbool(k == "rng_slice_len"), o)
+    if k == "enum":
+        inner = op[len("[p[0] for p in enumerate("):-len(", a0)]")]
+        return "(CEnum %s %s %d %s)" % (fb, cz(int(a[0])), ENUM_N[inner], o)
     return None
+
+
+CAPS_QUICK = {"bin": 300, "cmp": 80, "un": 40, "cmpif": 80, "cmpfi": 80, "mixif": 40, "mixfi": 40, "parse": 80,
+              "rng_in": 60, "rng_idx": 60, "rng_slice": 40, "rng_slice_len": 40}
+CAPS_THOROUGH = {"bin": 8000, "cmp": 2500, "cmpif": 2500, "cmpfi": 2500, "mixif": 1200, "mixfi": 1200, "parse": 2500,
+                 "rng_in": 2000, "rng_idx": 2000}
+
+
+def mod_sign_ok(c):
+    """x % y with a float operand: the result has the divisor's sign (or is zero) and |r| <= |y|."""
+    a = c["a"]
+    vals = []
+    for s in a:
+        vals.append(fval(s) if is_float(s) else None)
+    y = vals[1] if vals[1] is not None else None
+    if y is None:
+        try:
+            y = float(int(a[1]))
+        except OverflowError:
+            return True
+    r = fval(c["r"])
+    if math.isnan(r) or math.isnan(y) or math.isinf(y):
+        return True
+    return (r == 0 or (r > 0) == (y > 0)) and abs(r) <= abs(y)
 
 
 def run(ctx):
@@ -153,17 +238,15 @@ def run(ctx):
     hx = ctx.go_build("c10")
     ctx.log("harness built")
     quick = ctx.quick()
-    nrand = 150 if quick else 2500
-    budget = 2600 if quick else 60000     # Coq-evaluated cases per representation
+    nrand = 120 if quick else 2500
     dist = {}
     evaluations = 0
-    terms, refs = [], []
-    seen = set()
     go_bad = 0
+    pools = {}      # (rep, kind) -> list of (term, case)
+    seen = set()
     for rep in ("posix", "fallback"):
         cases = ctx.jsonl([hx, "-seed", str(ctx.seed), "-n", str(nrand), "-rep", rep] + (["-small"] if quick else []), timeout=600)
         ctx.log("harness (%s representation) produced %d observations" % (rep, len(cases)))
-        per_kind = {}
         for c in cases:
             if c["k"] == "summary":
                 for kk, vv in c["counts"].items():
@@ -176,31 +259,38 @@ def run(ctx):
             ok = same(r, w) or w == "?" or (r == "err" and c.get("e"))
             if r.startswith("panic"):
                 ok = False
+            if ok and c["k"] in ("mixif", "mixfi") and w == "?" and is_float(r):
+                ok = mod_sign_ok(c)
             if not ok:
                 go_bad += 1
                 what = "%s with operands %s (%s representation): implementation gave %s, exact result is %s%s" % (
                     c["op"], c["a"], rep, r[:120], w[:120], " (or an error)" if c.get("e") else "")
                 ctx.finding(classify(c), what, c)
-            # ---- sample for Coq
+            # ---- candidates for Coq
             t = term(c, rep)
             if t is None or t in seen:
                 continue
-            kind_n = per_kind.get(c["k"], 0)
-            per_kind[c["k"]] = kind_n + 1
             seen.add(t)
+            pools.setdefault((rep, c["k"]), []).append((t, c))
+    terms, refs = [], []
+    per_kind = {}
+    for (rep, kind), lst in sorted(pools.items()):
+        cap = CAPS_QUICK.get(kind, 30) if quick else CAPS_THOROUGH.get(kind, 1000)
+        if len(lst) > cap:
+            step = len(lst) / float(cap)
+            lst = [lst[int(i * step)] for i in range(cap)]
+        per_kind["%s/%s" % (rep, kind)] = len(lst)
+        for t, c in lst:
             terms.append(t)
             refs.append(c)
-        # thin the sample to the budget, keeping the boundary-product prefix and a spread of the rest
-    if len(terms) > 2 * budget:
-        step = len(terms) / float(2 * budget)
-        idx = sorted(set(int(i * step) for i in range(2 * budget)))
-        terms = [terms[i] for i in idx]
-        refs = [refs[i] for i in idx]
     ctx.log("evaluating %d distinct cases in Coq (model and specification)" % len(terms))
     bad_model, bad_spec = coq_mismatches(ctx, "c10_cases", HEADER, terms, ["model_ok", "spec_ok"], shard=4000)
     for i in bad_spec:
         c = refs[i]
-        ctx.finding(classify(c), "%s with operands %s (%s representation): implementation gave %s, which C10.Spec rejects" % (c["op"], c["a"], c["rep"], c["r"][:120]), c)
+        why = "which C10.Spec rejects"
+        if same(c["r"], c["w"]) and c.get("arm"):
+            why = "numerically right but held in the %s arm of the Int union: not canonical (AsInt32 and the small fast paths misbehave on such a value)" % ("small" if c["arm"] == 1 else "*big.Int")
+        ctx.finding(classify(c), "%s with operands %s (%s representation): implementation gave %s, %s" % (c["op"], c["a"], c["rep"], c["r"][:120], why), c)
     only_model = [i for i in bad_model if i not in set(bad_spec)]
     if only_model:
         c = refs[only_model[0]]
@@ -210,10 +300,11 @@ def run(ctx):
         "rule": "ordered product of the boundary pool {0, +-1, +-2, +-3, +-7, +-10, +-2^31(+-1), +-2^32(+-1), +-2^53(+-1), +-2^63(+-1), +-2^64(+-1), ...} x itself x 10 binary operators x 6 comparisons, unary operators, shifts by boundary counts, seeded random magnitudes up to 2^200, ints x float pool (subnormals, +-0, +-inf, NaN, halves, neighbours of 2^31/2^32/2^53/2^63/2^64) for comparisons / mixed arithmetic / conversions, int(string, base) on printed and corrupted literals, range/enumerate/repetition on a machine-int boundary pool, each in both Int representations; evaluations = observations checked against the math/big oracle in the harness, distinct = distinct terms additionally evaluated in Coq against C10.Model and C10.Spec",
         "samples": refs[:3] + refs[len(refs) // 2: len(refs) // 2 + 2],
         "distribution": dist,
+        "coq_cases_per_kind": per_kind,
         "go_oracle_mismatches": go_bad, "model_mismatches": len(bad_model), "spec_mismatches": len(bad_spec),
     }
     return ctx.finish(LEVEL, cov, assumptions=[
         "math/big (Int, Rat, Float), strconv and fmt integer formatting are oracles: modelled by Z operations / exact rationals",
-        "hardware float64 arithmetic and int64<->float64 conversion are oracles (Flocq binary64 operations in the model)",
+        "hardware float64 arithmetic and int64<->float64 conversion are oracles (Coq.Floats.SpecFloat round-to-nearest-even operations / exact dyadic rationals in the model)",
         "the harness reaches the fallback representation through the verif hook VerifDisableSmallInts (smallints = 0), which is what int_posix64.go does when mmap fails; int_generic.go is structurally the union model",
     ])
